@@ -15,6 +15,7 @@ import re
 from hypothesis import strategies as st
 
 from pbt.core import HarnessError, Outcome
+from pbt.props import _decoys
 from pbt.instruments.clock import VirtualClock
 
 TECHNIQUE = "Hypothesis-generated rule sets, composed inputs (signature instances via from_regex, hostile segments) and filter/learn/forget/import histories against a reference matcher, metamorphic relations (case change, embedding, replay) and a totality oracle under a virtual clock"
@@ -39,6 +40,7 @@ RULE += ' Added after the seeded rounds: Signature pools may contain case twins 
 RULE += ' Overlap scenarios: a stronger literal rule whose only occurrence in the input overlaps the match of another rule (shares its start, starts inside it, or ends inside it).'
 RULE += ' Bookkeeping calls between inputs (clear_audit_log, get_statistics, export_antibodies, get_audit_log).'
 RULE += ' Relaxation scenarios may let 1100 or 5000 other inputs pass between the block and the relaxation (bounded memories).'
+RULE += ' Round 7: a `decoy` (pbt/props/_decoys.py): a second object of the class, differently configured and put through a misleading script (same prompts / names / ids, opposite verdicts and limits), is built in the same process after the object under test.'
 EXHAUSTIVE_NOTE = {"quick": "every built-in signature/pattern instance (22 membrane + 18 innate) x 4 renderings (plain, upper-cased, embedded, embedded after 300 characters) x every threshold (4 / 5): 680 cases, complete for that table; relaxation table: 5 literal rules x 3 thresholds x 4 ways of relaxing a learnt rule = 60 histories; overlap table: every multi-word built-in instance x 3 ways a stronger literal rule overlaps it x custom/learnt",
                    "thorough": "same table, complete"}
 
@@ -226,7 +228,7 @@ def _innate_case(draw):
 
 def strategy(tier):
     m, i = _membrane_case(), _innate_case()
-    return st.integers(0, 9).flatmap(lambda k: m if k < 6 else i)
+    return _decoys.with_decoy(st.integers(0, 9).flatmap(lambda k: m if k < 6 else i))
 
 
 def enumerate_cases(tier):
@@ -310,6 +312,9 @@ def _membrane(case, out, clock, mod):
     except Exception as e:
         out.fail("raise:%s:Membrane()" % type(e).__name__, "constructor raised %s" % e, None)
         return
+    if case.get("decoy"):
+        _decoys.membrane(case["decoy"], mod, [op_[1] for op_ in case["ops"] if op_[0] == "filter" and isinstance(op_[1], str)])
+        out.label("decoy")
     builtin = [([s.is_regex, s.pattern], s.level.value) for s in mod.Membrane.INNATE_SIGNATURES]
     active_fixed = builtin + [(p, l) for p, l in case["custom"]]
     learned = {}              # pattern text -> (pat, level)
@@ -515,6 +520,9 @@ def _innate(case, out, clock, mod):
     except Exception as e:
         out.fail("raise:%s:InnateImmunity()" % type(e).__name__, "constructor raised %s" % e, None)
         return
+    if case.get("decoy"):
+        _decoys.innate(case["decoy"], mod, [op_[1] for op_ in case["ops"] if op_[0] in ("check", "filter") and isinstance(op_[1], str)])
+        out.label("decoy")
     active = [([p.is_regex, p.pattern], p.severity) for p in mod.InnateImmunity.DEFAULT_PATTERNS] + [(p, s) for p, s in case["custom"]]
     thr = case["threshold"]
     out.label("innate")
